@@ -6,6 +6,7 @@
 //         S <region> <tid> <step> <target>    (nswitch lines)
 // stdout: SER <hex>   OMP <hex>   REGIONS <r>   STEPS <region> <tid> <n> ...   FIRED <k>   CHUNKS <c>
 //         then the fork-server parent prints STATUS <exit> <signal>
+#include <sys/resource.h>
 #include <cstdio>
 #include <cstdlib>
 #include <cstring>
@@ -73,6 +74,9 @@ int main(int argc, char **argv) {
     fflush(stdout);
     pid_t pid = fork();
     if (pid == 0) {
+      // a run takes well under a second: sixty seconds of CPU time mean it does not terminate (SIGXCPU -> "hang")
+      struct rlimit rl; rl.rlim_cur = 60; rl.rlim_max = 62;
+      setrlimit(RLIMIT_CPU, &rl);
       sim::setChecking(true);
       sim::resetEntropy();
       kernel_t ks = load(ser), ko = load(omp);
